@@ -111,6 +111,15 @@ func evalC19Stub(b *Bundle, r *Runner, exp *c19Expect) []*Violation {
 			counts[c.ID]++
 		}
 	}
+	allCalls, base2 := 0, 0
+	for _, n := range counts {
+		allCalls += n
+	}
+	for _, c := range o0.Calls {
+		if c.SeqStart > op0.SeqReturn && c.SeqStart < o0.Ops[1].SeqStart {
+			base2++
+		}
+	}
 	var vs []*Violation
 	total := 0
 	for _, site := range exp.FQ.Sites {
@@ -161,6 +170,19 @@ func evalC19Stub(b *Bundle, r *Runner, exp *c19Expect) []*Violation {
 			if e2 := o.Ops[0].Exec2; e2 != "" && o.Ops[0].Panic == "" {
 				if e2 != "ok" || !rowsEqualMaybeOpen(o.Ops[0].Rows2, o0.Ops[0].Rows, exp.FQ.OrderOpen) {
 					vs = append(vs, mkViolation(b, "SECOND_EXEC_DIFFERS", posOf(b), fmt.Sprintf("%s\n Exec called again on the same Query (no fault this time): %s %s\n fault-free result: %s", what, e2, compact(o.Ops[0].Rows2), compact(o0.Ops[0].Rows)), o))
+					continue
+				}
+				// ... and it makes the invocations of one evaluation, not those the failed one still owed
+				calls2 := 0
+				for _, c := range o.Calls {
+					if c.SeqStart > o.Ops[0].SeqReturn && c.SeqStart < o.Ops[1].SeqStart {
+						calls2++
+					}
+				}
+				// (what New evaluated - CTE bodies, derived tables - and memoised is not evaluated again: between
+				// what a second Exec makes after a success and what a whole fresh evaluation makes)
+				if calls2 > allCalls || calls2 < base2 {
+					vs = append(vs, mkViolation(b, "SECOND_EXEC_DIFFERS", "invocations", fmt.Sprintf("%s\n Exec called again on the same Query (no fault this time) made %d invocations of the stub functions; a whole fault-free evaluation makes %d, a second Exec after a success %d", what, calls2, allCalls, base2), o))
 					continue
 				}
 				r.Stats.probe("second_exec_after_failure_compared")
@@ -606,6 +628,9 @@ func corpusC19() []*Bundle {
 		{"SELECT DISTINCT s, fid(1, s) AS x FROM t ORDER BY s DESC LIMIT 2", "distinct_order_limit"},
 		{"SELECT id, (SELECT fid(1, ip) AS ip FROM `<-meta`) AS m FROM t", "backref_subquery"},
 		{"SELECT id, (SELECT fid(1, v) AS y FROM n WHERE fid(2, v) >= 2) AS sub FROM t WHERE fid(3, a) > 0", "nested_mixed"},
+		// deferred work (an awaited call per row) registered by the rows before the one that fails
+		{"SELECT id, AWAIT(fid(1, a)) AS n, fid(2, id) AS b FROM t", "awaited_beside_plain"},
+		{"SELECT id, (SELECT AWAIT(fid(1, v)) AS y FROM n) AS sub, fid(2, id) AS b FROM t", "awaited_in_subquery_beside_plain"},
 	}
 	var out []*Bundle
 	mkCase := func(q string) casefmt.Case {
